@@ -259,8 +259,8 @@ def pin_rule(ctx):
                     res_side.ok("%s(inverse=%s): result mapped into the (%s, %s) box" % (inner.name, inverse, out_lo, out_hi))
                 else:
                     res_side.fail(Finding("INV-SIDE", inner.module, inner.qualname, path.ret_node, "the result of the %s direction must be mapped into the (%s, %s) box" % ("inverse" if inverse else "forward", out_lo, out_hi), construct="de-normalisation, inverse=%s" % inverse))
-    if n_vec < 7:
-        raise AnalysisIncomplete("SPL-PIN: %d searched knot vectors (< 7 confirmed by hand)" % n_vec)
+    if n_vec < 5:
+        raise AnalysisIncomplete("SPL-PIN: %d searched knot vectors (< 5; the count on the pinned tree is larger, the floor leaves room for merged call sites confirmed by hand)" % n_vec)
     return {"pin": res_pin, "eps": res_eps, "side": res_side}
 
 
@@ -798,8 +798,8 @@ def square_rule(ctx):
                 res.ok("%s: %s(...) with the square box (%s, %s)" % (fi.qualname, r.name, box[0], box[1]))
             else:
                 res.fail(Finding("SPL-SQUARE", fi.module, fi.qualname, c, "%s is called with a non-square box (left=%s right=%s bottom=%s top=%s): it omits the box-scale term of the log-derivative and tests the inverse domain against (left, right)" % (r.name, box[0], box[1], box[2], box[3])))
-    if n < 6:
-        raise AnalysisIncomplete("SPL-SQUARE: %d call sites (< 6 confirmed by hand)" % n)
+    if n < 4:
+        raise AnalysisIncomplete("SPL-SQUARE: %d call sites (< 4; the count on the pinned tree is larger, the floor leaves room for merged call sites confirmed by hand)" % n)
     return res
 
 
@@ -1091,3 +1091,9 @@ _P["C03"]["explanation"] = _P["C03"]["explanation"].replace(
     "The onto-half for bounded transformers (end-point pinning, identity tails) is decided by the C09 rules.",
     "The onto-half for bounded transformers is decided by the spline family rules run here as well: SPL-PIN (both end-points of every searched knot vector stored exactly), INV-SIDE, SPL-FLOOR (bin sizes positive and summing to one) and SPL-TAIL (closed mask, identity tails, square box).",
 )
+
+# C19's "stays finite / agrees with double" at the end-points of the bounded splines rests on the
+# clamp that keeps a rounding overshoot inside the unit interval: SPL-CLAMP is run for C19 too
+if "C19" in _P:
+    _P["C19"]["rules"] = list(_P["C19"]["rules"]) + [clamp_rule]
+    _P["C19"]["explanation"] = _P["C19"]["explanation"] + " SPL-CLAMP (shared with C09): interpolants that can overshoot the unit interval by float32 rounding are clamped before de-normalisation, so a following domain-checked transform accepts them in single precision as in double."
